@@ -469,6 +469,9 @@ type Exchange struct {
 // Do builds the request and calls ServeHTTP on h with a strict recorder.
 func Do(h http.Handler, spec *drive.ReqSpec) (*Exchange, error) {
 	ctx := context.Background()
+	if spec.Ctx != nil {
+		ctx = spec.Ctx
+	}
 	req, err := spec.Build(ctx)
 	if err != nil {
 		return nil, err
